@@ -265,6 +265,18 @@ def r2_inline_never_persistent(ctx):
                'under directive.inline the target may alias only %s (%s)' % (sorted(al), kind) if not bad else
                'an inline directive can write the persistent state (%s; target may alias %s): its effect outlives the statement' % (kind, sorted(al)),
                anchor=func.qualname)
+    # item stores into the overlay must not alias mutable items of the persistent state
+    recv = _recv(f)
+    for (func, node, al, kind, sn) in sites_inline:
+        if kind.startswith('item store') and INLINE in al and isinstance(node, ast.Assign):
+            v = node.value
+            r_ = _recv(func)
+            aliased = isinstance(v, (ast.Subscript, ast.Attribute)) and any(field_name(x, r_) == r_ + '.' + GLOBAL for x in ast.walk(v)) or \
+                (isinstance(v, ast.Call) and isinstance(v.func, ast.Attribute) and v.func.attr in ('get', 'setdefault', 'pop') and field_name(v.func.value, r_) == r_ + '.' + GLOBAL)
+            if any(field_name(x, r_) == r_ + '.' + GLOBAL for x in ast.walk(v)):
+                rep.ob('C04.R2', ctx.loc(func, node), ctx.src(node), not aliased,
+                       'the overlay entry is a copy of the persistent value' if not aliased else
+                       'the overlay entry aliases a (mutable) item of the persistent state: mutating it for an inline directive changes the persistent state', anchor=func.qualname)
     # and block directives do reach the persistent state (the other half of the table)
     ok = any(GLOBAL in al for (_, _, al, _, _) in sites_block)
     rep.ob('C04.R2', ctx.loc(f, f.node), 'block directive -> persistent state', ok,
@@ -602,6 +614,15 @@ VARIANTS = [
          (SA, "            if t[0] == tokenize.COMMENT:\n                yield t[1]\n", "            if True:\n                yield t[1]\n")),
     fire('defaults-not-applied', 'C04.R7',
          (DE, "        default_state = self.config['default_runtime_state']\n", "        default_state = {}\n")),
+    fire('revert-fix-F2-overlay-read-before-write', 'C04.R3',
+         (DI, "                    if key not in state:\n                        # inline directives work on a copy of the persistent set\n                        state[key] = set(self._global_state[key])\n                    state[key].add(value)\n", "                    state[key].add(value)\n")),
+    fire('revert-fix-F9-report-style-written-globally', 'C04.R2',
+         (DI, "                    self.set_report_style(key.replace('REPORT_', ''), state=state)\n", "                    self.set_report_style(key.replace('REPORT_', ''))\n")),
+    fire('overlay-seeded-by-alias-not-copy', 'C04.R2',
+         (DI, "                        state[key] = set(self._global_state[key])\n                    state[key].add(value)\n", "                        state[key] = self._global_state[key]\n                    state[key].add(value)\n")),
+    silent('overlay-seed-with-setdefault',
+           (DI, "                    if key not in state:\n                        # inline directives work on a copy of the persistent set\n                        state[key] = set(self._global_state[key])\n                    state[key].add(value)\n",
+                "                    if key not in state:\n                        state[key] = self._global_state[key].copy()\n                    state[key].add(value)\n")),
     silent('overlay-reset-by-new-dict', (DI, "        self._inline_state.clear()\n", "        self._inline_state = {}\n")),
     silent('state-selected-by-ifexp-kept-as-if',
            (DI, "                if directive.inline:\n                    state = self._inline_state\n                else:\n                    state = self._global_state\n",
